@@ -66,6 +66,13 @@ REG = {
             "reachable generator must differ between two worker seeds, no state may occur in both workers, equal seeds reproduce; a "
             "second facet runs real 2-worker DataLoaders and compares per-generator digests taken inside the workers",
             "DESIGN.md §3 C09", TRUST + "; deepcopy models fork/pickle (validated by the real-worker facet)"),
+    "C14": ("exploration", "Hypothesis-generated image sizes/parameters: decode-and-verify on recorded context, coordinate-encoded image/mask pairs, inverse round-trips",
+            "10 facets: random / two-random / random-resized / simple-random crop (tensor + PIL; output size, recorded box inside the "
+            "padded input, torchvision functional re-application reproduces the output, recorded overlap), random erasing (one "
+            "box), spec-augment (one band per axis, narrower than mask_param), every semseg transform and the "
+            "SemsegTransformWrapper on coordinate-encoded image / index-encoded mask pairs, patchify/unpatchify (+shuffle) and "
+            "norm/denorm inverses; exceptions raised inside kappadata for valid inputs are violations",
+            "DESIGN.md §3 C14", TRUST),
     "C15": ("exploration", "Hypothesis-generated scalable transforms x factor sequences: algebraic laws over observed parameter ranges (attribute walk + spy generator); simulated and real workers for the scheduled transform",
             "16 leaf facets + KDComposeTransform nestings: R(1)==constructed, no compounding (sequence == fresh scaled once), "
             "monotone between R(0) and R(g), every requested range collapsed at 0 and identity where one exists; ranges observed "
